@@ -62,11 +62,11 @@ for _pid, _what in {
 _DED = {
     "C01": "Discharged for all inputs (non-pruning configuration; ideal-hash reading): the read path -- get_node, _traverse_extension, _traverse_from (loop invariant with a ghost key suffix), _traverse, _get, get, exists, __getitem__, __contains__: get(k) = hlk(root node, nibbles(k)) on every database, raising only MissingTrieNode; and the write path -- _set, _delete, _normalize_branch_node (helpers _set_kv_node / _set_branch_node / _delete_kv_node / _delete_branch_node executed inside those units), _set_root_node, set, delete, __setitem__, __delitem__: after the call the root denotes the old mapping with k -> v (k removed for delete / set-to-empty), for an arbitrary probe key. The induction over histories is the composition of these per-call contracts. Reference counting of pruning tries (C06) and iteration over batches are not part of these units: squash_changes is under contract with the client block abstracted (C05); what pruning removes is decided by the bounded stand-in.",
     "C02": "Discharged: the write path preserves the full canonical form hwfp (extension only over a branch, no empty paths, every branch has at least two entries, a child is embedded iff its rlp is shorter than 32 bytes) -- clauses `well-formed` of _set / _delete / _normalize_branch_node; the reference rule (_create_node_to_db_mapping), the root rule (_set_root_node / _set_raw_node: root always hashed, blank root = BLANK_NODE_HASH), _persist_node, hex-prefix encoding = Yellow-Paper HP with round trip. Lean (H.lean): a canonical trie is unique for its contents and the Yellow-Paper construction yields it; together: root = YP root of the contents. The link `hwfp + view => equals the YP trie` is the Lean theorem, not a pyvc obligation.",
-    "C03": "Discharged: soundness of get_from_proof -- for an arbitrary finite list of well-formed nodes offered as proof (loop over the proof with the scratch database under the store invariant) and an arbitrary root, the call returns hlk(root node, nibbles(key)), the value the root denotes in the ideal-hash reading, or raises BadTrieProof; get (the lookup it evaluates) as in C01. The consumer's half of completeness: every offered node is in the scratch database when the lookup starts (loop invariant at an arbitrary ghost position of the proof), and BadTrieProof is raised only while handling a MissingTrieNode whose hash is the hash of *no* offered node and which sits on the key's path below the claimed root (view equation for an arbitrary continuation) -- so any proof that holds every hashed node of the key's path is accepted and yields get(key). The producer's half: get_proof / _get_proof (recursive, proof tuple as a ghost pair of sets) return a proof that holds the root node and every hashed node a walk of the key dereferences (hneed, arbitrary ghost hash) and to which *exactly* the nodes on the key's path were added (onpath, arbitrary ghost node; embedded nodes included) -- `only nodes on that key's path`; a missing path node surfaces as get_node's KeyError. Not discharged: the link between the two phrasings of `on the key's path` (structural hneed in the producer, the view equation of the lookup's MissingTrieNode in the consumer) that turns the two halves into get_from_proof(root, key, get_proof(key)) = get(key) -- bounded only.",
+    "C03": "Discharged: soundness of get_from_proof -- for an arbitrary finite list of well-formed nodes offered as proof (loop over the proof with the scratch database under the store invariant) and an arbitrary root, the call returns hlk(root node, nibbles(key)), the value the root denotes in the ideal-hash reading, or raises BadTrieProof; get (the lookup it evaluates) as in C01. The consumer's half of completeness: every offered node is in the scratch database when the lookup starts (loop invariant at an arbitrary ghost position of the proof), and BadTrieProof is raised only while handling a MissingTrieNode whose hash is the hash of *no* offered node and which sits on the key's path below the claimed root (view equation for an arbitrary continuation) -- so any proof that holds every hashed node of the key's path is accepted and yields get(key). The producer's half: get_proof / _get_proof (recursive, proof tuple as a ghost pair of sets) return a proof that holds the root node and every hashed node a walk of the key dereferences (hneed, arbitrary ghost hash) and to which *exactly* the nodes on the key's path were added (onpath, arbitrary ghost node; embedded nodes included) -- `only nodes on that key's path`; a missing path node surfaces as get_node's KeyError. The two halves meet in one notion of `on the key's path`: the lookup's failure report carries, besides the view equation of C07, the structural clause `the missing hash is the root or is dereferenced by a walk of the key (hneed), and is not the blank root` -- proved through _traverse_from (new loop-invariant clause `what is needed below the current node is needed from the start`, arbitrary ghost hash), _traverse, _get, get / exists, and handed on by get_from_proof's BadTrieProof. Lemma proof_composition (z3, over exactly these contract clauses closed over their ghosts, plus the meaning of the proof tuple's ghost hash set): when the offered tuple is the one get_proof returned, the bad-proof case is impossible, hence get_from_proof(root, key, get_proof(key)) = hlk(root, key) = get(key). Not discharged: the order of the nodes in the tuple (no clause of the property needs it); malformed node bodies -- bounded only.",
     "C04": 'Discharged: every store write of _persist_node / _set_raw_node / _set_root_node is content-addressed and leaves an existing entry unchanged (store-write obligations at every db[k] = v reached in _set / _delete / set / delete), `store-only-grows` postconditions of the write path, squash_changes on a non-pruning trie (commit applies no deletes; an aborted block or a failing write leaves every old entry), _complete_pruning is a no-op without pruning, ScratchDB never writes the wrapped store while a batch is open, at_root yields a non-pruning snapshot over the same database at the requested root and leaves the trie untouched. That old roots stay *readable* follows from `store only grows` and the ideal-hash reading (what a root denotes does not depend on the database); several tries sharing one database are bounded only.',
     "C05": "Discharged: squash_changes with the client block modelled as an arbitrary sequence of operations on the batch trie (havoc of the batch trie constrained by its own contracts): normal exit adopts the batch root and commits the buffered writes (deletes only when pruning), exceptional exit and a failing write during commit leave root, store entries and reference counts as before; ScratchDB.batch_commit all-or-nothing. `no node that served only intermediate states is added` is bounded only.",
     "C06": "Discharged (for an arbitrary node hash g, ghost): the exactness invariant of a pruning trie -- count(g) = RC(root, g) = [root = g] + hrefs(node(root), g) (the number of references to g in the tree unfolding of the trie, what regenerate_ref_count recomputes) and `g is stored <=> count(g) >= 1` -- is preserved by set and delete (units set#pruning / delete#pruning), through: count-delta contracts of the recursive write path (_set / _delete / _normalize_branch_node on a pruning trie: count - pending changes by hrefs(result) - hrefs(argument) - [argument is g]; a node enters the store exactly when it is counted), _set_root_node#pruning (new root counted, a too-small old root marked), _prune_node, _persist_node / _set_raw_node counting with frames, _complete_pruning (dictionary-loop invariant: every pending prune applied exactly), squash_changes adopting the batch's counts. A failing set / delete leaves the counts untouched. Not discharged: that hrefs is what regenerate_ref_count computes (its work-list loop is not under contract), exactness across squash_changes batches as a whole (the batch trie's own operations are the same units, the composition is bounded), the initial state.",
-    "C07": "Discharged: _traverse_from / _traverse / _get / get / exists raise MissingTraversalNode / MissingTrieNode only with a hash absent from the database, with the consumed prefix of the key, and such that the named node lies on the requested path right after that prefix (view equation for an arbitrary continuation); get names the root and the key; lookups modify nothing (frame obligations). Write path (non-pruning): a failing _set / _delete / set / delete has written nothing to the database and left the root unchanged (reads precede writes: _delete returns blank exactly when nothing was written), and names an absent hash with root and key. A failing _set / set names the root or a hashed node that a walk of the key dereferences (hneed). For a failing *delete* (which may also need the sibling a collapsing branch is merged with) the on-path clause, reference counts on failure of pruning tries, and the retry-converges clause are bounded only.",
+    "C07": "Discharged: _traverse_from / _traverse / _get / get / exists raise MissingTraversalNode / MissingTrieNode only with a hash absent from the database, with the consumed prefix of the key, and such that the named node lies on the requested path right after that prefix (view equation for an arbitrary continuation) and, structurally, is the root or a hashed node the walk of the key dereferences (hneed; never the blank root); get names the root and the key; lookups modify nothing (frame obligations). Write path (non-pruning): a failing _set / _delete / set / delete has written nothing to the database and left the root unchanged (reads precede writes: _delete returns blank exactly when nothing was written), and names an absent hash with root and key. A failing _set / set names the root or a hashed node that a walk of the key dereferences (hneed). For a failing *delete* (which may also need the sibling a collapsing branch is merged with) the on-path clause, reference counts on failure of pruning tries, and the retry-converges clause are bounded only.",
     "C08": 'Discharged: _traverse_from / _traverse (the node reached holds exactly the keys below the consumed prefix -- view equation for an arbitrary continuation --, the remainder is a suffix of the key, a non-empty remainder lies strictly inside a leaf / extension path); annotate_node (type, sub-segments, value, suffix are the spec functions of the raw node; the branch comprehension is handled without a 2^16 case split); traverse, traverse_from and root_node: the returned annotated node is the node at that position, a TraversedPartialPath carries pieces that make up the path, the enclosing leaf / extension, a tail that runs (properly) into its path and a simulated node that is that node with the tail cut off; missing-node reports as in C07. `blank exactly when no stored key starts with the path` (needs: a non-blank canonical node holds a key) and `at most one database entry per child hop` are bounded only.',
     "C12": "Discharged: BinaryTrie._get = blk; _set: view clause for insert / delete / delete-subtrie on all paths, refusal exactly when the walk says so (brefuse), store only grows by content-addressed writes, insert never yields the blank root; get / exists / set / delete / delete_subtrie wrappers (root unchanged on refusal); every node written is canonical -- well formed, no blank child, and a kv node never directly over another kv node (store-write obligation `canonical-node` at every _hash_and_save; the store invariant assumes the same of every node read) -- so every root the trie produces denotes a canonical trie. That a canonical trie is unique for its contents (history independence, root = hash of the canonical encoding) is the Lean theorem B.lean; the two are combined outside pyvc.",
     "C13": "Discharged: unforgeability of if_branch_valid -- for an arbitrary finite list of well-formed node bodies offered as branch (the database rebuilt by the dictionary comprehension is shown to satisfy the binary store invariant) a True answer implies blk(root, bits(key)) = value, the value the root denotes; get_branch / _get_branch against their specification (the node bodies on the key's path, root first), with: a refused key (InvalidKeyError) is not stored, and the branch suffices for the lookup (in any store that has the yielded nodes the lookup finds every node it dereferences); check_if_branch_exist and get_trie_nodes against their specification functions; get_trie_nodes and _get_witness_for_key_prefix suffice for every lookup below the root / below the key prefix (in any store that has the returned bodies such a lookup finds every node it dereferences); BinaryTrie._get / get, parse_node and the node encoders. That the witness holds *only* nodes of the trie, malformed node bodies, and the reading of the specification functions as `some stored key starts with p` / `exactly the reachable nodes` (lemmas over the model) are bounded only.",
